@@ -64,6 +64,20 @@ func safeParse(s string) parsed {
 	var f *filter.Filter
 	var err error
 	p.Out = guard(parseWatchdog, func() { f, err = filter.Parser.ParseString("verif", s) })
+	if p.Out.Timeout {
+		// a loaded machine can stall a goroutine: a hang is only reported when
+		// the same parse, run again on its own, exceeds the watchdog again
+		time.Sleep(200 * time.Millisecond)
+		var f2 *filter.Filter
+		var err2 error
+		if o2 := guard(parseWatchdog, func() { f2, err2 = filter.Parser.ParseString("verif", s) }); !o2.Timeout {
+			p.Out = o2
+			if !o2.bad() {
+				p.F, p.Err = f2, err2
+			}
+			return p
+		}
+	}
 	if !p.Out.bad() {
 		p.F, p.Err = f, err
 	}
